@@ -20,9 +20,9 @@ NAMES = ["i", "j", "k", "a", "b", "p"]
 
 
 def build(case):
-    idx = {n: get_symbols(n)[0] for n in NAMES}
+    idx = {n: get_symbols(n)[0] for n in NAMES + ["l", "c"]}
     factors = []
-    for n, (kind, names, exp) in enumerate(case["objs"]):
+    for n, (kind, names, exp, *nm) in enumerate(case["objs"]):
         if kind == "d":
             o = KroneckerDelta(idx[names[0]], idx[names[1]])
         elif kind == "a":
@@ -30,7 +30,8 @@ def build(case):
             o = AntiSymmetricTensor(f"A{n}", tuple(idx[x] for x in names[:h]),
                                     tuple(idx[x] for x in names[h:]))
         else:
-            o = NonSymmetricTensor(f"T{n}", tuple(idx[x] for x in names))
+            # (optional explicit name: several tensors of a term may carry the same name)
+            o = NonSymmetricTensor(nm[0] if nm else f"T{n}", tuple(idx[x] for x in names))
         factors.append(o ** exp)
     pref = Rational(*case.get("pref", [1, 1]))
     return idx, pref * Mul(*factors)
@@ -50,14 +51,21 @@ def gen_cases(tier, seed):
     yield {"objs": [["t", ["i", "j"], 1], ["t", ["i"], 1], ["t", ["i", "j"], 1], ["t", ["j"], 1],
                     ["t", ["j"], 1]], "target": None, "max_n": 4}
     for _ in range(60 if tier == "quick" else 1500):
-        pool = rng.choice([["i", "j"], ["i", "j", "k"], ["i", "j", "a"]])
-        objs = [["t", [rng.choice(pool) for _ in range(rng.randint(1, 2))], 1]
+        pool = rng.choice([["i", "j"], ["i", "j", "k"], ["i", "j", "a"], ["i", "j", "k", "l"]])
+        same_names = rng.random() < 0.5
+        objs = [["t", [rng.choice(pool) for _ in range(rng.randint(1, 2))], 1] +
+                ([rng.choice(["G", "G", "H"])] if same_names else [])
                 for _o in range(rng.randint(4, 6))]
         objs = [o for o in objs if len(set(o[1])) == len(o[1])]
-        case = {"objs": objs, "target": None, "max_n": rng.randint(2, 5)}
+        case = {"objs": objs, "target": None, "max_n": rng.choice([None, None, 2, 3, 4, 5])}
         if rng.random() < 0.3:
             case["max_itmd_dim"] = rng.randint(0, 2)
         yield case
+    # hyper-contractions with several tensors of the same name
+    yield {"objs": [["t", ["i", "k"], 1, "G"], ["t", ["k", "l"], 1, "G"], ["t", ["l", "k"], 1, "H"],
+                    ["t", ["l", "j"], 1, "B"]], "target": "ij"}
+    yield {"objs": [["t", ["i", "k"], 1, "G"], ["t", ["k", "l"], 1, "G"], ["t", ["l", "k"], 1, "H"],
+                    ["t", ["l", "j"], 1, "G"], ["t", ["l", "c"], 1, "G"]], "target": "ijc", "pref": [3, 2]}
     # only scalar intermediates allowed (limit 0)
     yield {"objs": [["t", ["j", "p", "k"], 1], ["t", ["k", "a"], 1], ["t", ["j", "k"], 1], ["t", ["i", "j", "a"], 1]],
            "target": "ip", "max_itmd_dim": 0}
@@ -253,6 +261,6 @@ CHECKS = {
     "schemes.execute": {
         "function": "adcgen.generate_code.optimize_contractions:optimize_contractions",
         "cases": gen_cases, "check": check,
-        "bound": "terms of <= 4 objects (rank <= 3, exponents <= 2, deltas, traces) over 6 index names, optional explicit target order, max_itmd_dim 0..3, max_n_simultaneous_contracted 2..3; hyper-contractions of 4-6 objects of rank <= 2 over 2-3 index names with max_n_simultaneous_contracted 2..5; 2 occ + 2 virt spin orbitals, all target assignments",
+        "bound": "terms of <= 4 objects (rank <= 3, exponents <= 2, deltas, traces) over 6 index names, optional explicit target order, max_itmd_dim 0..3, max_n_simultaneous_contracted 2..3; hyper-contractions of 4-6 objects of rank <= 2 (partly with equal tensor names) over 2-3 index names with max_n_simultaneous_contracted 2..5; 2 occ + 2 virt spin orbitals, all target assignments",
     },
 }
